@@ -1,4 +1,5 @@
 import PhyloModel.Props.C15
+import PhyloModel.Props.C15Det
 #print axioms C15.update_is_average_linkage
 #print axioms C15.step_keeps_linkage
 #print axioms C15.step_monotone_nonnegative
@@ -8,3 +9,15 @@ import PhyloModel.Props.C15
 #print axioms C15.step_total
 #print axioms C15.upgma_tree
 #print axioms C15.upgma_recovers_ultrametric
+#print axioms C15.avglink_perm_invariant
+#print axioms C15.state_abstraction
+#print axioms C15.average_linkage_deterministic
+#print axioms C15.average_linkage_deterministic_keys
+#print axioms C15.average_linkage_deterministic_complete
+#print axioms C15.unambiguity_is_of_the_input
+#print axioms C15.taxon_order_invariant
+#print axioms C15.taxon_order_invariant_index_lists
+#print axioms C15.upgma_taxon_order
+#print axioms C15.upgma_taxon_order_input
+#print axioms C15.tie_flag_certifies_unambiguous
+#print axioms C15.upgma_taxon_order_tie_free
